@@ -41,6 +41,7 @@ def tu_source(g, gid=None, dflt=(), limits=None, ctx=(), postprec=(), defines=()
     ntid = {n: i for i, n in enumerate(g.nts)}
     tid = {t: i for i, t in enumerate(g.ts)}
     rl = []
+    named = []
     for ri, (l, rhs, prec) in enumerate(g.rules):
         args = ', '.join('n%d' % ntid[x] if x in ntid else ('error' if x == 'error' else 't%d' % tid[x]) for x in rhs)
         r = 'n%d(%s)' % (ntid[l], args)
@@ -48,12 +49,18 @@ def tu_source(g, gid=None, dflt=(), limits=None, ctx=(), postprec=(), defines=()
         if prec != 0 and not post:
             r = '(%s[%d])' % (r, prec)
         nv = 'N' if ntid[l] in noval else ''
-        r = '%s' % r if ri in dflt else ('%s >>= vh::RuleFC%s{%d}' % (r, nv, ri) if ri in ctx else '%s >= vh::RuleF%s{%d}' % (r, nv, ri))
+        if ri % 2 == 1 and ri not in dflt and not nv and ri not in ctx:
+            # odd rules attach a NAMED functor object (an lvalue), as a user who keeps the functor in a variable does
+            named.append('vh::RuleF f%d{%d};' % (ri, ri))
+            r = '%s >= f%d' % (r, ri)
+        else:
+            r = '%s' % r if ri in dflt else ('%s >>= vh::RuleFC%s{%d}' % (r, nv, ri) if ri in ctx else '%s >= vh::RuleF%s{%d}' % (r, nv, ri))
         if post:
             r = '(%s)[%d]' % (r, prec)
         rl.append('        ' + r)
     if limits:
         o.append('struct Lim { static const size_t state_count_cap = %d; static const size_t max_sit_count_per_state_cap = %d; };' % tuple(limits))
+    o += named
     o.append('auto make() { return new parser(n%d,' % ntid[g.root])
     o.append('    terms(%s),' % ', '.join('t%d' % i for i in range(len(g.ts))))
     o.append('    nterms(%s),' % ', '.join('n%d' % i for i in range(len(g.nts))))
@@ -157,6 +164,11 @@ def lex_tla_json(gid, terms, shape='list'):
 
 
 # ---------------------------------------------------------------- custom lexer (C18)
+def clex_name(i):
+    """names of custom terms: short ones and long ones that differ only after many characters (names are ids: whole strings)"""
+    return 'T%d' % i if i % 3 == 0 else 'custom_terminal_symbol_number_%d' % i
+
+
 def clex_tu(g, gid):
     """g: gram.Grammar whose terms are abstract (named by single characters); all terms are custom_terms, the lexer is
     vh::byte_lexer<number of terms>"""
@@ -168,11 +180,11 @@ def clex_tu(g, gid):
     for i, t in enumerate(g.ts):
         pr, asc = g.tprec.get(t, 0), g.tassoc.get(t, 0)
         if (pr, asc) == (0, 0):
-            o.append('custom_term t%d("T%d", vh::TermF{%d});' % (i, i, i))
+            o.append('custom_term t%d("%s", vh::TermF{%d});' % (i, clex_name(i), i))
         elif asc == 0:
-            o.append('custom_term t%d("T%d", vh::TermF{%d}, %d);' % (i, i, i, pr))
+            o.append('custom_term t%d("%s", vh::TermF{%d}, %d);' % (i, clex_name(i), i, pr))
         else:
-            o.append('custom_term t%d("T%d", vh::TermF{%d}, %d, associativity(%d));' % (i, i, i, pr, asc))
+            o.append('custom_term t%d("%s", vh::TermF{%d}, %d, associativity(%d));' % (i, clex_name(i), i, pr, asc))
     rl = []
     for ri, (l, rhs, prec) in enumerate(g.rules):
         args = ', '.join('n%d' % ntid[x] if x in ntid else ('error' if x == 'error' else 't%d' % tid[x]) for x in rhs)
@@ -192,7 +204,7 @@ def clex_tu(g, gid):
 def clex_tla_json(g, gid):
     j = tla_json(g, gid)
     nt = len(g.ts)
-    j['tnames'] = ['T%d' % i for i in range(nt)] + ['<eof>', '<error_recovery_token>']
+    j['tnames'] = [clex_name(i) for i in range(nt)] + ['<eof>', '<error_recovery_token>']
     names_nt = j['ntnames']
 
     def symname(c):
